@@ -118,14 +118,18 @@ func (ex *Exec) mapUpdate(mv, k, v Value, fr *frame) {
 	if m == nil {
 		ex.goPanicf("assignment to entry in nil map")
 	}
-	if m.Own != nil {
-		ex.recordWrite(m.Own, fr)
-	}
 	ex.raceWrite(&m.Acc, fr)
 	if e := ex.findEntry(m, k, fr, "mapupd"); e != nil {
+		// storing the very same value back is not a modification (no observer can tell)
+		if m.Own != nil && !identicalValue(e.V, v) {
+			ex.recordWrite(m.Own, fr)
+		}
 		e.V = copyVal(v)
 		e.Touched = true
 		return
+	}
+	if m.Own != nil {
+		ex.recordWrite(m.Own, fr)
 	}
 	if _, isIface := m.T.Key().Underlying().(*types.Interface); isIface {
 		k = ex.forceIface(k)
@@ -260,6 +264,45 @@ func (ex *Exec) orderLemma(fr *frame) bool {
 	if ex.cfg.OrderInsensitive[fr.fn.String()] {
 		ex.note("order-lemma:" + fr.fn.String())
 		return true
+	}
+	return false
+}
+
+// identicalValue: a and b are the same value by identity (same object, same term, equal constants).
+func identicalValue(a, b Value) bool {
+	switch x := a.(type) {
+	case *Lazy:
+		y, ok := b.(*Lazy)
+		return ok && x == y
+	case Iface:
+		y, ok := b.(Iface)
+		if !ok {
+			return false
+		}
+		if x.T == nil || y.T == nil {
+			return x.T == nil && y.T == nil
+		}
+		return types.Identical(x.T, y.T) && identicalValue(x.V, y.V)
+	case *smt.Term:
+		y, ok := b.(*smt.Term)
+		return ok && x.S == y.S
+	case *SymStr:
+		y, ok := b.(*SymStr)
+		return ok && x.String() == y.String()
+	case *Map:
+		y, ok := b.(*Map)
+		return ok && x == y
+	case Slice:
+		y, ok := b.(Slice)
+		return ok && x.Arr == y.Arr && x.Off == y.Off && x.Len == y.Len
+	case *Cell:
+		y, ok := b.(*Cell)
+		return ok && x == y
+	case bool, int64, string:
+		return a == b
+	case float64:
+		y, ok := b.(float64)
+		return ok && (x == y || (x != x && y != y))
 	}
 	return false
 }
